@@ -25,6 +25,10 @@ func decorate(sp RespSpec, k int) RespSpec {
 		sp.Var = []string{"", "empty", "trunc"}[k%3]
 	case "ok":
 		sp.Var = []string{"", "", "via307", "", "via308"}[k%5]
+	case "s429", "s503":
+		if sp.Rak == "date" {
+			sp.Var = []string{"", "rfc850", "", "asctime"}[k%4]
+		}
 	}
 	return sp
 }
